@@ -170,8 +170,10 @@ class Eval:
                     return ve if isinstance(ve, tuple) and ve[:1] == ("panic",) else ("never",)
                 key = hq.pat_key(s["pat"])
                 e_else = dict(env)
+                self.conds.append((("arm", init, key), False))     # the else block runs exactly when the pattern did not match
                 self.conds.append((("arm", init, "_"), True))
                 ve = self.expr(els, e_else, depth)
+                self.conds.pop()
                 self.conds.pop()
                 e_then = dict(env)
                 self.bind_pat(s["pat"], init, e_then)
